@@ -73,7 +73,8 @@ func (env *Env) IsJavaSourceFile() bool {
 
 func (env *Env) GetDoc() *model.Javadoc {
 	if env.Node.JavaDoc == nil {
-		env.Node.JavaDoc = &model.Javadoc{}
+		// an empty document for this call only: a query must not modify the graph
+		return &model.Javadoc{}
 	}
 	return env.Node.JavaDoc
 }
